@@ -28,7 +28,7 @@ VARIANTS = {"alg": [1, 2, 3, 4], "key": [1], "sig": [1, 2, 3, 4], "claims": [1, 
             "exp": [-3600, -90, -30, 30, 86400, 1 << 62, (1 << 62) + 1], "scope": [1, 2], "scheme": [1, 2, 3, 4]}
 WRITERS = {1, 2, 12, 13, 20, 21}
 MANIFEST = {
-    "text": "Coq model of admission (Model/Auth.v: a token described by its deviations from a freshly signed well-formed one; the interceptor in front of every RPC; a server with one signal per RPC). Theorems: a request is admitted iff it carries, under the Bearer scheme, a token that is RS256, signed by the configured key, intact, with all claims, addressed to kuksa.val, unexpired and with a valid scope; otherwise EVERY RPC answers UNAUTHENTICATED and nothing changes; changing any one part of an admitted token invalidates it; with authorization disabled every request is served as with full rights and never answered with an access error. Tied to the code on every run end to end: the databroker's own tonic server (serve_with_incoming_shutdown with Authorization::new(jwt.key.pub) or Disabled) is started on a loopback listener and every one of the 22 RPCs of kuksa.val.v1, kuksa.val.v2 and sdv.databroker.v1 (incl. the three client-streaming ones) is called through tonic clients with tokens signed on the fly: all single-field mutations (algorithm incl. HS256 keyed with the public key and 'none', foreign key, truncated / altered signature, payload or header replaced after signing, each claim missing or ill-typed, audience, expiry on both sides incl. inside jsonwebtoken's default leeway, invalid scope, wrong header scheme), no header, garbage, plus random multi-field mutations; status codes and the state after each block (what every writing RPC wrote, what was registered) are diffed against the extracted model, and an oracle written independently in Python judges the implementation's trace (an admitted well-formed request must be served, not merely not refused; no panic). Expiry mutations include the largest i64 / u64 number of seconds. Second part, the VISS socket: the real websocket server (viss::server::serve) on loopback with authorization enabled and with authorization disabled, requests carrying no token, a token that does not verify or a principal's token; model token kind TokOpen with theorems c06_viss_token_required, c06_viss_disabled_get (served exactly as v2 GetValue with ALLOW_ALL), c06_viss_disabled_get_refusal, c06_viss_disabled_subscribe; model and implementation are compared on the access class of every VISS reply.",
+    "text": "Coq model of admission (Model/Auth.v: a token described by its deviations from a freshly signed well-formed one; the interceptor in front of every RPC; a server with one signal per RPC). Theorems: a request is admitted iff it carries, under the Bearer scheme, a token that is RS256, signed by the configured key, intact, with all claims, addressed to kuksa.val, unexpired and with a valid scope; otherwise EVERY RPC answers UNAUTHENTICATED and nothing changes; changing any one part of an admitted token invalidates it; with authorization disabled every request is served as with full rights and never answered with an access error. Tied to the code on every run end to end: the databroker's own tonic server (serve_with_incoming_shutdown with Authorization::new(jwt.key.pub) or Disabled) is started on a loopback listener and every one of the 22 RPCs of kuksa.val.v1, kuksa.val.v2 and sdv.databroker.v1 (incl. the three client-streaming ones) is called through tonic clients with tokens signed on the fly: all single-field mutations (algorithm incl. HS256 keyed with the public key and 'none', foreign key, truncated / altered signature, payload or header replaced after signing, each claim missing or ill-typed, audience, expiry on both sides incl. inside jsonwebtoken's default leeway, invalid scope, wrong header scheme), no header, garbage, plus random multi-field mutations; status codes and the state after each block (what every writing RPC wrote, what was registered) are diffed against the extracted model, and an oracle written independently in Python judges the implementation's trace (an admitted well-formed request must be served, not merely not refused; no panic). Expiry mutations include the largest i64 / u64 number of seconds. Second part, the VISS socket: the real websocket server (viss::server::serve) on loopback with authorization enabled and with authorization disabled, requests carrying no token, a token that does not verify or a principal's token; model token kind TokOpen with theorems c06_viss_token_required, c06_viss_disabled_get (served exactly as v2 GetValue with ALLOW_ALL), c06_viss_disabled_get_refusal, c06_viss_disabled_subscribe; model and implementation are compared on the access class of every VISS reply. Also: one well-formed token expiring in 2 s is used at once and again, with the same header text, after its expiry: served, then refused (c06_same_token_after_expiry_refused; a verdict cache in front of the decoder is reported).",
     "note": "Trusted: Coq kernel (the gRPC theorems are axiom-free; the c06_viss_* theorems reach Flocq's 4 standard-library axioms through the text codec of viss_set, as Print Assumptions reports); extraction + OCaml driver (vm_compute cross-check); harness/src/fam_srv.rs (token construction with the jsonwebtoken crate and by hand for alg none / tampering; tonic clients), harness/src/fam_viss.rs (websocket client); loopback TCP. Modelled, not verified: RSA / base64 / JSON are not modelled (the token description states whether the signature is intact); over VISS only tokens that are absent, do not verify or are a principal's well-formed token are presented (the field-wise mutations go through the same Decoder that the gRPC part exercises).",
 }
 RULE = ("exhaustive: 22 RPCs x (well-formed token + 31 single-field mutations + no header + garbage + empty token) with "
